@@ -365,6 +365,11 @@ bool exec_line(char *line, int lineno, int thr) {
 		int r = bidib_start_pointer(strchr(tok[1], 'r') ? NULL : cb_read, strchr(tok[1], 'w') ? NULL : cb_write,
 		                            strchr(tok[1], 'c') ? NULL : arg_str(tok[2]), 0);
 		HEAD(); fprintf(vout, ",\"ret\":%d,\"running\":%d", r, bidib_running ? 1 : 0); out_wire(); TAIL();
+	} else if (strcmp(op, "startserial") == 0) {
+		/* startserial <device|~> <cfgdir|~> <flush_ms> : the serial entry point (no device of this name exists here) */
+		int r = bidib_start_serial(arg_str(tok[1]), arg_str(tok[2]), n > 3 ? (unsigned int) atoi(tok[3]) : 0);
+		HEAD(); fprintf(vout, ",\"ret\":%d,\"running\":%d", r, bidib_running ? 1 : 0);
+		out_thr(); out_wire(); TAIL();
 	} else if (strcmp(op, "stop") == 0) {
 		bidib_stop();
 		HEAD(); fprintf(vout, ",\"running\":%d", bidib_running ? 1 : 0);
